@@ -62,6 +62,42 @@ def _format_parts(expr, fi=None, depth=0):
         rest = expr.values[1:]
         if all(isinstance(v, ast.Constant) for v in rest):
             return expr.values[0].value, "".join(v.value for v in rest)
+        # f"{endianness}{count}L": a repeat count in the body reads as a number
+        return expr.values[0].value, "".join(v.value if isinstance(v, ast.Constant) else "1" for v in rest)
+    if isinstance(expr, ast.JoinedStr) and expr.values and isinstance(expr.values[0], ast.Constant) and isinstance(expr.values[0].value, str):
+        # f"<{count}L": constant prefix, repeat counts read as numbers
+        return None, "".join(v.value if isinstance(v, ast.Constant) else "1" for v in expr.values)
+    if isinstance(expr, ast.BinOp) and isinstance(expr.op, ast.Mod) and isinstance(expr.left, ast.Constant) and isinstance(expr.left.value, str):
+        # '%s%dL' % (endianness, n)  /  '<%dL' % n : printf-style templates; numeric conversions are repeat counts
+        import re as _re
+        tmpl = expr.left.value
+        args = list(expr.right.elts) if isinstance(expr.right, ast.Tuple) else [expr.right]
+        convs = _re.findall(r"%[-0-9.]*([sdiu])", tmpl)
+        if len(convs) == len(args):
+            if tmpl.startswith("%s"):
+                body = _re.sub(r"%[-0-9.]*[diu]", "1", tmpl[2:])
+                if "%" not in body:
+                    return args[0], body
+            elif convs and "s" not in convs:
+                body = _re.sub(r"%[-0-9.]*[diu]", "1", tmpl)
+                if "%" not in body:
+                    return None, body
+    if isinstance(expr, ast.Call) and isinstance(expr.func, ast.Attribute) and expr.func.attr == "format" and isinstance(expr.func.value, ast.Constant) \
+            and isinstance(expr.func.value.value, str) and not expr.keywords:
+        import re as _re
+        tmpl = expr.func.value.value
+        holes = _re.findall(r"\{[^{}]*\}", tmpl)
+        if len(holes) == len(expr.args) and holes:
+            if tmpl.startswith(holes[0]):
+                body = tmpl[len(holes[0]):]
+                for h in holes[1:]:
+                    body = body.replace(h, "1", 1)
+                return expr.args[0], body
+            if tmpl[:1] in "<>=!@":
+                body = tmpl
+                for h in holes:
+                    body = body.replace(h, "1", 1)
+                return None, body
     return None, None
 
 
@@ -468,7 +504,7 @@ def _read_size_of(fi, buf_expr, prog, call=None):
     return None
 
 
-@rule("BL1", "every fixed-size record is unpacked with a format of exactly the size read", floor=20)
+@rule("BL1", "every fixed-size record is unpacked with a format of exactly the size read", floor=12)
 def bl1(ctx, R):
     prog = ctx.prog
     n_sites = 0
